@@ -157,7 +157,7 @@ n = 0
 w = None
 samples = []
 DEPTH = int(os.environ.get("C19_DEPTH", "3"))
-values = gen(DEPTH)
+values = gen(DEPTH) + [D, [D, 1], {"k": (G, F)}]       # a dataclass CLASS object is a leaf like any other object
 for v in values:
     n += 1
     try:
@@ -202,7 +202,22 @@ if w is None:
     def wrap(v):
         return v
 
-    shapes = [lambda: [inc(1), [inc(2)]], lambda: (inc(1), {"k": inc(2)}), lambda: P(inc(1), [inc(2), (inc(3),)]), lambda: {"a": {"b": [inc(1)]}},
+    @task(namespace="c19", cache=False)
+    def keyname(s):
+        return "key:" + s
+
+    @dataclasses.dataclass
+    class H:
+        c: Any = dataclasses.field(init=False, default=None)      # a non-init field declared BEFORE an init field
+        a: Any = None
+
+    def mkH(a, c):
+        h = H(a)
+        h.c = c
+        return h
+
+    shapes = [lambda: {"a": inc(9), keyname("b"): 2}, lambda: {keyname("k"): inc(1), "z": inc(5), keyname("m"): [inc(7)]}, lambda: mkH(inc(1), inc(20)), lambda: [mkH([inc(1)], (inc(2), inc(3))), inc(4)],
+              lambda: [inc(1), [inc(2)]], lambda: (inc(1), {"k": inc(2)}), lambda: P(inc(1), [inc(2), (inc(3),)]), lambda: {"a": {"b": [inc(1)]}},
               lambda: mkD(inc(1), [inc(2)]), lambda: F((inc(1), inc(2))), lambda: [mkD([inc(1)], {"z": inc(2)})], lambda: {"d": F([inc(1)])}, lambda: mkG([inc(1)], (inc(2),))]
 
     def plain(v):
@@ -212,7 +227,7 @@ if w is None:
         from redun.expression import Expression
         t = type(v)
         if isinstance(v, Expression):
-            return v.args[0] + 1
+            return ("key:" + v.args[0]) if v.task_name.endswith("keyname") else v.args[0] + 1
         if t is list:
             return [map_plain(x) for x in v]
         if t is tuple:
@@ -220,7 +235,7 @@ if w is None:
         if isinstance(v, tuple) and hasattr(v, "_fields"):
             return t(*[map_plain(x) for x in v])
         if t is dict:
-            return {k: map_plain(x) for k, x in v.items()}
+            return {map_plain(k): map_plain(x) for k, x in v.items()}
         if dataclasses.is_dataclass(t):
             r = object.__new__(t)
             for fld in dataclasses.fields(v):
@@ -241,4 +256,4 @@ if w is None:
             break
 
 finish(w is not None, witness=w, evaluations=n, samples=samples,
-       bound=f"{len(values)} generated values of depth <= {DEPTH}, width <= 2 over list / tuple / namedtuple / set / dict (container keys) / dataclass (init and non-init fields, frozen or not) and three kinds of leaf; 9 container shapes of task expressions through Scheduler.run")
+       bound=f"{len(values)} generated values of depth <= {DEPTH}, width <= 2 over list / tuple / namedtuple / set / dict (container keys) / dataclass (init and non-init fields, frozen or not) and three kinds of leaf; 13 container shapes of task expressions through Scheduler.run (expressions among dict keys and values, a dataclass whose non-init field precedes an init field)")
